@@ -607,6 +607,48 @@ func runFF(r *Result, thorough bool, prop string) {
 				}
 				victim.store.Close()
 			}
+			// nodes in any state: a node that has already adopted a genuine response (and so has verified the
+			// known validators' signatures for that block index) is offered a strangers' block with the SAME
+			// index, decorated with those genuine signatures
+			{
+				victim := freshVictim()
+				var gb hg.Block
+				var gf hg.Frame
+				jsonCopy(blk0, &gb)
+				jsonCopy(frm0, &gf)
+				if cls, _ := guarded(func() error { return victim.core.FastForward(&gb, &gf) }); cls == "ok" {
+					strangers := newParticipants(rng, 1+rng.Intn(4))
+					pl := []*peers.Peer{}
+					roots := map[string]*hg.Root{}
+					for _, p := range strangers {
+						pl = append(pl, p.peer)
+						roots[p.hex] = hg.NewRoot()
+					}
+					frame := &hg.Frame{Round: blk0.RoundReceived(), Peers: pl, Roots: roots, Events: []*hg.FrameEvent{}, PeerSets: map[int][]*peers.Peer{0: pl}, Timestamp: 777}
+					fh, _ := frame.Hash()
+					fbk := hg.NewBlock(blk0.Index(), frame.Round, fh, pl, [][]byte{[]byte("forged state")}, nil, 777)
+					for _, p := range strangers {
+						sig, _ := fbk.Sign(p.key)
+						fbk.SetSignature(sig)
+					}
+					for k, v := range blk0.Signatures {
+						fbk.Signatures[k] = v // genuine signatures of known validators, over the genuine block of that index
+					}
+					var fb hg.Block
+					var ff hg.Frame
+					jsonCopy(fbk, &fb)
+					jsonCopy(frame, &ff)
+					before := victim.digest()
+					cls, det := guarded(func() error { return victim.core.FastForward(&fb, &ff) })
+					r.Inc("forged_same_index_after_genuine_"+cls, 1)
+					if cls == "ok" {
+						r.Violate("impl-violation", "after adopting a genuine response the node adopted a strangers' block with the same index carrying the known validators' signatures over the genuine block", "forged-same-index-after-genuine", nil)
+					} else if after := victim.digest(); after != before {
+						r.Violate("impl-violation", "refused forged response changed the node: "+det, "forged-refused-not-noop", nil)
+					}
+				}
+				victim.store.Close()
+			}
 			// nodes in any state: a joining node whose handshake was answered by a stranger
 			for k := 0; k < 4; k++ {
 				joinThenFF(r, rng, blk0)
